@@ -14,11 +14,12 @@ from harness.lib import common
 PROP = 'C07'
 PROP_FILE = 'Props/C07.v'
 THEOREMS = ['C07_slice_is_record', 'C07_one_line_per_response', 'C07_line_addresses_its_record', 'C07_fields_agree',
-            'C07_status_mime_partial', 'C07_status_code_of_status_line']
+            'C07_status_mime_partial', 'C07_status_mime_grammar', 'C07_status_code_of_status_line']
 TRUSTED = c05.TRUSTED + [
-    'status / MIME clause: C07_status_mime_partial proves it for the model of get_http_header / parse_mimetype up to the '
-    'interpretation of the field lines by the model of NameValueRecord.parse; the RFC 7230 reading of Content-Type is '
-    'compared with the generated response header on the implementation side',
+    'status / MIME clause: C07_status_mime_grammar proves it against an independent field-line grammar (RFC 7230 3.2 without '
+    'obsolete folding) for the model of get_http_header / parse_mimetype / NameValueRecord.parse; for folded headers '
+    'C07_status_mime_partial leaves the interpretation of the field lines to the model of NameValueRecord.parse; in both cases '
+    'the Content-Type is compared with the generated response header on the implementation side',
 ]
 ASSUMPTIONS = [
     'the record test of _write_cdx_field (WARC-Type response, Content-Type application/http; msgtype=response) defines "response record"',
